@@ -19,7 +19,7 @@ CHECKS = {
     "C06": ("model_checking", "C06.alt/run/flush/nonasync evaluated on the abstract observable state in Sched.tla and on every real trace (contexts spanning yields, nested, with sync re-entry and failures); C06.timer: asynq.tools.AsyncTimer itself under a virtual clock carried by Sched.tla must report exactly the time the property says the context was active for.", "4.3, 6, 0"),
     "C07": ("model_checking", "C07.lifo/read/restore on Sched.tla and on real traces with real AsyncScopedValue/async_override contexts; satellite ScopedCall.tla (enumerating oracle + operation-history machine, explored by TLC, every cell/history replayed) for tools.call_with_context around every kind of callee next to reading siblings and for the AsyncScopedValue / async_override API (get, call, set, nested overrides, exits by exception).", "4.3, 6, 14.3"),
     "C08": ("model_checking", "Sessions (several computations on one scheduler, faults, overflow, nested sync) in Sched.tla and in the real code: C08.active/clean on every trace; C08.fresh = the next computation's trace is a behaviour of the fresh-start specification (TraceSched).", "4.3, 6"),
-    "C12": ("model_checking", "The deduplicate registry is part of Sched.tla (DedupCall, the completion callback, dirty()); the property's own reference registry lives in the monitor (Obs.tla: C12.share/again/sep); TLC explores programs issuing same/different-key calls in the same yield, in later steps while the first is blocked, between flushes, after completion, with dirty() at every position, under all schedules; real traces validated by the monitor.", "6 (C12)"),
+    "C12": ("model_checking", "The deduplicate registry is part of Sched.tla (DedupCall, the completion callback, dirty()); the property's own reference registry lives in the monitor (Obs.tla: C12.share/again/sep); TLC explores programs issuing same/different-key calls in the same yield, in later steps while the first is blocked, between flushes, after completion, with dirty() at every position, under all schedules; real traces validated by the monitor; thread stage: the same deduplicated calls on 2 and 4 real threads at once must give every thread the events of its solo run (C12.thread).", "6 (C12), 14.6"),
 }
 
 checks = []
